@@ -236,7 +236,7 @@ class Histories(Driver):
         if tier == "quick":
             # (N, number of distinct missing parents, weight alphabet, max locks, max re-deliveries)
             self.plan = [(1, 2, (1, 2), 2, 1), (2, 2, (1, 2), 2, 1), (3, 2, (1, 2), 2, 1), (4, 1, (1, 2), 0, 0),
-                         (4, 1, (1,), 1, 1)]
+                         (4, 1, (1,), 1, 1), (4, 1, (1, 2), 1, 0, "osp")]
         else:
             self.plan = [(1, 2, (0, 1, 3), 2, 1), (2, 2, (0, 1, 3), 2, 1), (3, 2, (0, 1, 2, 3), 2, 1), (4, 2, (1, 2), 2, 1),
                          (4, 1, (0, 1, 3), 1, 0), (5, 1, (1, 2), 0, 0), (5, 1, (1,), 1, 1), (6, 1, (1,), 0, 0, "osp")]
